@@ -241,7 +241,7 @@ def has_kind(block, kinds_):
 
 
 def in_model_grammar(block):
-    return all(s[0] not in ("forlit", "classuse", "compuse", "defuse", "callinner") and all(in_model_grammar(b) for b in subblocks(s)) for s in block)
+    return all(s[0] not in ("classuse", "compuse", "defuse", "callinner") and all(in_model_grammar(b) for b in subblocks(s)) for s in block)
 
 
 def has_excbind(block):
@@ -481,11 +481,13 @@ def coq_stmt(s):
     if k == "if":
         return f"(SIf {coq_block(s[1])} {coq_block(s[2])})"
     if k in ("while", "for"):
-        return f"(SLoop false {coq_block(s[1])} {coq_block(s[2])})"
+        return f"(SLoop LCond {coq_block(s[1])} {coq_block(s[2])})"
     if k == "fort":  # the target is bound at the start of every visit of the body
-        return f"(SLoop false (BCons (SAssign {VARS[s[1]]} {s[2]}) {coq_block(s[3])}) {coq_block(s[4])})"
+        return f"(SLoop LCond (BCons (SAssign {VARS[s[1]]} {s[2]}) {coq_block(s[3])}) {coq_block(s[4])})"
+    if k == "forlit":  # always entered; the target is bound at the start of every visit of the body
+        return f"(SLoop LAlways (BCons (SAssign {VARS[s[1]]} {s[2]}) {coq_block(s[3])}) {coq_block(s[4])})"
     if k == "whiletrue":
-        return f"(SLoop true {coq_block(s[1])} BNil)"
+        return f"(SLoop LForever {coq_block(s[1])} BNil)"
     if k == "with":
         return f"(SWith {lib.cbool(s[1])} {coq_block(s[2])})"
     if k == "try":
@@ -935,7 +937,7 @@ def py_upper_ok(block):
     the reference wherever the program is inside the model grammar)"""
     for i, s in enumerate(block):
         k = s[0]
-        if k in ("break", "continue", "whiletrue"):
+        if k in ("break", "continue", "whiletrue", "forlit"):
             return False
         if k in ("while", "for", "forlit", "fort") and s[-1]:
             return False
@@ -1099,8 +1101,8 @@ def run(tier: str, replay: str | None = None):
         for b in load_corpus():
             blocks.append(b)
             origin.append("corpus")
-        n_rand, n_tidy, n_small = (900, 900, 300) if tier == "quick" else (7000, 7000, 484)
-        n_ext = 300 if tier == "quick" else 2500
+        n_rand, n_tidy, n_small = (700, 700, 220) if tier == "quick" else (7000, 7000, 484)
+        n_ext = 240 if tier == "quick" else 2500
         for b in small_exhaustive(n_small):
             blocks.append(b)
             origin.append("small")
